@@ -57,6 +57,16 @@ NOT_YET = {}
 ALL = [f"C{i:02d}" for i in range(1, 21)]
 
 
+def _props_modules(pid):
+    base = VERIF / "lean" / "FunsorVerif" / "Props"
+    mods = []
+    if (base / f"{pid}.lean").exists():
+        mods.append(f"FunsorVerif.Props.{pid}")
+    if (base / pid).is_dir():
+        mods += [f"FunsorVerif.Props.{pid}.{g.stem}" for g in sorted((base / pid).glob("*.lean"))]
+    return mods
+
+
 def main():
     checks = []
     for pid in ALL:
@@ -76,7 +86,8 @@ def main():
         })
     man = {
         "version": 1,
-        "setup_cmd": "cd lean && lake build",
+        "setup_cmd": "cd lean && lake build FunsorVerif.Audit " + " ".join(
+            f"drv_{p.lower()} " + " ".join(_props_modules(p)) for p in sorted(CLAIMED)),
         "hooks": {
             "guard": "FUNSOR_VERIF",
             "enable": "no hooks are needed: harnesses observe funsor through public/run-time attributes only",
